@@ -94,7 +94,7 @@ def inorder_words(model, alpha, max_len, cap, skip_upto):
 
 def hstr(h):
     return ' '.join('+' + op[1] if op[0] == 'add' else f'+{op[1]}@{op[2]}' if op[0] == 'addf' else f'-#{op[1]}' if op[0] == 'rm'
-                    else f'#{op[1]}:={op[2]}' if op[0] == 'rep' else f'-k{op[1]}' if op[0] == 'rmk' else f'#{op[1]}:=fn' if op[0] == 'repc' else f'.{op[1]}' if op[0] == 'set' else f'.{op[1]}=None' if op[0] == 'unset'
+                    else f'#{op[1]}:={op[2]}' if op[0] == 'rep' else f'-k{op[1]}' if op[0] == 'rmk' else f'#{op[1]}:=fn' if op[0] == 'repc' else f'#{op[1]}:=self' if op[0] == 'selfrep' else f'.{op[1]}' if op[0] == 'set' else f'.{op[1]}=None' if op[0] == 'unset'
                     else f'str({op[1]})' for op in h)
 
 
